@@ -99,9 +99,9 @@ def lemma_vacuity_probes(woven, info):
                     break           # next item reached without finding the body: give up on this lemma
                 if name is not None:
                     if lines[j].rstrip() == '{':
-                        lines[j] = '{ assert(false); //@@VACUITY-PROBE-LEMMA ' + name
+                        lines[j] = '{ let vp_c: bool = arbitrary::<Seq<bool>>()[%d]; if vp_c { assert(false); } //@@VACUITY-PROBE-LEMMA ' % (100000 + j) + name
                     elif lines[j].rstrip().endswith('{}'):
-                        lines[j] = lines[j].rstrip()[:-2] + '{ assert(false); } //@@VACUITY-PROBE-LEMMA ' + name
+                        lines[j] = lines[j].rstrip()[:-2] + '{ let vp_c: bool = arbitrary::<Seq<bool>>()[%d]; if vp_c { assert(false); } } //@@VACUITY-PROBE-LEMMA ' % (100000 + j) + name
                     else:
                         j += 1
                         continue
